@@ -276,6 +276,11 @@ fn gen_bits(r: &mut Rng, out: &mut dyn Write) {
     }
     for _ in 0..(1 + r.below(5)) {
         match r.below(6) {
+            0 | 1 if r.below(12) == 0 => {
+                // a unary prefix of 256·k + c zeros followed by a c-bit suffix: an 8-bit counter would see the short code
+                let c = r.below(32) as u32; let zeros = 256 * (1 + r.below(2)) as u32 + c;
+                for _ in 0..zeros { w.b(false); } w.b(true); w.u(c, r.next() & ((1u64 << c) - 1));
+                ops.push(if r.below(3) == 0 { "se".to_string() } else { "ue".to_string() }); }
             0 | 1 => { let k = match r.below(6) { 0 => (1u64 << r.below(33)) - 1, 1 => ((1u64 << (1 + r.below(32))) - 2).min((1 << 32) - 2), 2 => (1u64 << 32) - 2 - r.below(3), 3 => (1u64 << 32) - 1 + r.below(2), _ => r.next() % (1 << (1 + r.below(32))) };
                        w.ue(k); ops.push(if r.below(3) == 0 { "se".to_string() } else { "ue".to_string() }); }
             2 => { let m = 1u64 << r.below(32); let v = (r.next() % m) as i64 * if r.flag() { 1 } else { -1 }; w.se(v); ops.push("se".to_string()); }
@@ -337,7 +342,7 @@ fn scaling_list(w: &mut W, r: &mut Rng, size: usize, fault: bool) {
     for j in 0..size {
         if next != 0 {
             let d: i64 = if j == fault_at { r.pick(&[128, 129, 1000]) as i64 * if r.flag() { 1 } else { -1 } - if r.flag() { 0 } else { 1 } }
-                else { match r.below(40) { 0 => -last, 1 => 127 - r.below(2) as i64, 2 => -128 + r.below(2) as i64, 3 => 100, 4 => -100, 5 => 256 - last, _ => r.below(9) as i64 - 4 } };
+                else { match r.below(40) { 0 | 5 => if last <= 128 { -last } else { 256 - last }, 1 => 127 - r.below(2) as i64, 2 => -128 + r.below(2) as i64, 3 => 100, 4 => -100, _ => r.below(9) as i64 - 4 } };
             w.se(d);
             next = (last + d + 256).rem_euclid(256);
         }
@@ -350,7 +355,7 @@ pub struct SpsInfo { pub id: u64, pub chroma_idc: u64, pub separate: bool, pub l
     pub nal_hrd: Option<(u64, u64, u64, u64, u64)>, pub vcl_hrd: Option<(u64, u64, u64, u64, u64)>, pub pic_struct_present: bool, pub has_vui: bool, pub bd_luma: u64 }
 
 pub fn gen_sps(r: &mut Rng) -> (Vec<u8>, SpsInfo) {
-    let mut w = W::default(); let mut f = Faults::new(r);
+    let mut w = W::with_alias(r); let mut f = Faults::new(r);
     let profile = r.pick(&[66, 77, 88, 100, 110, 122, 244, 44, 83, 86, 118, 128, 138, 139, 134, 135, 0, 255]);
     let profile = if r.below(6) == 0 { profile } else { r.pick(&[66, 77, 88, 100, 110, 122, 244, 44, 83, 86]) };
     let id = if f.hit(r, 6) { 32 } else if r.below(10) == 0 { 31 } else { r.below(3) };
@@ -404,10 +409,11 @@ pub fn gen_sps(r: &mut Rng) -> (Vec<u8>, SpsInfo) {
 }
 
 #[derive(Clone)]
-pub struct PpsInfo { pub id: u64, pub sps: usize, pub entropy: bool, pub bottom: bool, pub l0: u64, pub wp: bool, pub wb: u64, pub qs: i64, pub deblock: bool, pub redundant: bool }
+pub struct PpsInfo { pub id: u64, pub sps: usize, pub entropy: bool, pub bottom: bool, pub l0: u64, pub wp: bool, pub wb: u64, pub qs: i64, pub deblock: bool, pub redundant: bool, /// a map-type-6 PPS with a full id list beyond 65536 entries, generated without any injected fault: must be accepted
+    pub big_ok: bool }
 
 pub fn gen_pps(r: &mut Rng, spss: &[SpsInfo]) -> (Vec<u8>, PpsInfo) {
-    let mut w = W::default(); let mut f = Faults::new(r);
+    let mut w = W::with_alias(r); let mut f = Faults::new(r); let budget = f.left; let mut big = false;
     let id = if f.hit(r, 6) { 256 } else if r.below(10) == 0 { 255 } else { r.below(3) };
     let si = r.below(spss.len() as u64) as usize;
     let s = &spss[si];
@@ -422,6 +428,7 @@ pub fn gen_pps(r: &mut Rng, spss: &[SpsInfo]) -> (Vec<u8>, PpsInfo) {
             0 => { for _ in 0..=n { w.ue(if f.hit(r, 4) { size.min((1u64 << 32) - 2) } else if r.below(6) == 0 { size - 1 } else { r.below(size.min(50)) }); } }
             2 => { for _ in 0..n { let a = r.below(size.min(60) + 1); let b = if f.hit(r, 4) { r.pick(&[size + 1, a.saturating_sub(1)]) } else { (a + r.below(4)).min(size) }; w.ue(a).ue(b.min((1u64 << 32) - 2)); } }
             3 | 4 | 5 => { w.b(r.flag()).ue(if f.hit(r, 3) { size.min((1u64 << 32) - 2) } else if r.below(4) == 0 { size - 1 } else { r.below(size.min(50)) }); }
+            6 if r.below(25) == 0 => { big = true; let cnt = r.pick(&[65535, 65536, 65537, 70000, 139263]); w.ue(cnt); let bits = [0, 1, 2, 2, 3, 3, 3, 3][n as usize]; for _ in 0..=cnt { w.u(bits, if bits == 0 { 0 } else { r.below(n + 1) }); } }
             6 => { let cnt = if f.hit(r, 3) { r.pick(&[size.min(3000), 1 << 16, 1 << 24, (1 << 31) - 1, (1u64 << 32) - 2]) } else if r.below(6) == 0 { (size - 1).min(3000) } else { r.below(12).min(size - 1) }; w.ue(cnt); let bits = [0, 1, 2, 2, 3, 3, 3, 3][n as usize]; for _ in 0..=cnt.min(3000) { w.u(bits, if bits == 0 { 0 } else if f.hit(r, 9) { (n + 1).min((1 << bits) - 1) } else { r.below(n + 1) }); } }
             _ => {}
         }
@@ -438,11 +445,12 @@ pub fn gen_pps(r: &mut Rng, spss: &[SpsInfo]) -> (Vec<u8>, PpsInfo) {
         if m { let cnt = 6 + if t { if s.chroma_idc == 3 { 6 } else { 2 } } else { 0 }; let fault = if f.hit(r, 4) { r.below(cnt) as usize } else { 99 }; for i in 0..cnt as usize { scaling_list(&mut w, r, if i < 6 { 16 } else { 64 }, i == fault); } }
         let cq2 = rng_se(r, &mut f, -12, 12); w.se(cq2);
     }
-    (w.trail_z(r), PpsInfo { id, sps: si, entropy, bottom, l0, wp, wb, qs, deblock, redundant })
+    let big_ok = big && f.left == budget && w.alias.map(|a| a.0 >= w.ue_count).unwrap_or(true);
+    (w.trail_z(r), PpsInfo { id, sps: si, entropy, bottom, l0, wp, wb, qs, deblock, redundant, big_ok })
 }
 
 pub fn gen_slice(r: &mut Rng, spss: &[SpsInfo], ppss: &[PpsInfo]) -> (u8, Vec<u8>) {
-    let mut w = W::default(); let mut f = Faults::new(r);
+    let mut w = W::with_alias(r); let mut f = Faults::new(r);
     let p = &ppss[r.below(ppss.len() as u64) as usize];
     let s = &spss[p.sps];
     let st = if f.hit(r, 10) { 10 } else { r.below(10) };
@@ -509,8 +517,8 @@ fn gen_syntax(r: &mut Rng, n: usize, out: &mut dyn Write, derived: bool) {
         if spss.is_empty() || derived { continue; }
         for _ in 0..(1 + r.below(3)) {
             let (mut d, info) = gen_pps(r, &spss);
-            if r.below(12) == 0 { mutate(r, &mut d); }
-            let line = format!("pps {}", hex(&d)); writeln!(out, "{}", line).unwrap(); count += 1;
+            let mutated = r.below(12) == 0; if mutated { mutate(r, &mut d); }
+            let line = format!("pps {}", hex(&d)); writeln!(out, "{}{}", line, if info.big_ok && !mutated { " | ~^Ok\\(" } else { "" }).unwrap(); count += 1;
             if run.run_line(&line).starts_with("Ok") { ppss.retain(|q: &PpsInfo| q.id != info.id); ppss.push(info); }
         }
         if ppss.is_empty() { continue; }
